@@ -270,6 +270,48 @@ def leg_c(ctx, rng, n):
             core.log(f"C06 leg C {it}/{n}")
 
 
+def leg_c_creation(ctx, rng, quick):
+    """creation functions return arrays too: the whole small grid of eye(N, M, k) in every format, and full / zeros / ones /
+    random(density | nnz) on a grid of shapes — canonical form, no stored fill value, values"""
+    import sparse
+
+    def chk(desc, thunk, ref):
+        case = {"call": desc}
+        ctx.case(f"C:create:{desc.split('(')[0]}", case)
+        try:
+            with warnings.catch_warnings():
+                warnings.simplefilter("ignore")
+                r = thunk()
+        except Exception as e:  # noqa: BLE001 — every argument here is valid
+            ctx.fail("C", "create", case, f"raised {type(e).__name__}: {str(e)[:120]}", finding=findings.classify(PID, desc, case, "raised"))
+            return
+        msg = impl.canonical_problem(r) or impl.nofill_problem(r)
+        if not msg and ref is not None:
+            dd = r.todense()
+            if dd.shape != ref.shape or not np.array_equal(dd, ref):
+                msg = f"values differ from NumPy's (shape {dd.shape} vs {ref.shape})"
+        if msg:
+            ctx.fail("C", "create", case, msg, finding=findings.classify(PID, desc, case, msg))
+
+    top = 5 if quick else 7
+    for fmt in ("coo", "gcxs", "dok"):
+        for N in range(top):
+            for M in range(top):
+                for k in range(-top - 1, top + 2):
+                    chk(f"eye({N},{M},k={k},format={fmt})", lambda: sparse.eye(N, M, k=k, format=fmt), np.eye(N, M, k=k))
+        for shp in [(0,), (3,), (2, 3), (3, 0), (2, 1, 3), ()]:
+            for v in (0, 2):
+                chk(f"full({shp},{v},format={fmt})", lambda: sparse.full(shp, v, format=fmt), np.full(shp, v))
+            chk(f"zeros({shp},format={fmt})", lambda: sparse.zeros(shp, format=fmt), np.zeros(shp))
+            chk(f"ones({shp},format={fmt})", lambda: sparse.ones(shp, format=fmt), np.ones(shp))
+            size = int(np.prod(shp))
+            for nnz in sorted({0, min(1, size), size // 2, size}):
+                chk(f"random({shp},nnz={nnz},format={fmt})", lambda: sparse.random(shp, nnz=nnz, format=fmt, random_state=int(rng.integers(1 << 30))), None)
+            for dens in (0.0, 0.3, 1.0):
+                chk(f"random({shp},density={dens},format={fmt})",
+                    lambda: sparse.random(shp, density=dens, format=fmt, random_state=int(rng.integers(1 << 30)), fill_value=int(rng.choice([0, 2]))), None)
+
+
 # ---------------------------------------------------------------------------------------------------
 # leg expr: random PROGRAMS of the Expr type — model (evalModel) vs code vs NumPy vs spec (evalSpec)
 # ---------------------------------------------------------------------------------------------------
@@ -401,6 +443,7 @@ def run(ctx):
     rng = gen.rng_for(ctx.seed, PID)
     leg_a(ctx, rng, 300 if ctx.quick else 3000)
     leg_c(ctx, rng, 500 if ctx.quick else 6000)
+    leg_c_creation(ctx, rng, ctx.quick)
     leg_expr(ctx, gen.rng_for(ctx.seed, PID + ":expr"), 500 if ctx.quick else 30000, 6 if ctx.quick else 10)
     ctx.cov["rule"] = ("leg A: canonical and deliberately broken coordinate lists / CSR triples, Lean predicate vs Python checker; leg C: random programs "
                        "(depth<=4) over 27 operation kinds and COO/GCXS/DOK inputs, every sparse result checked for canonical form, no stored fill values and "
